@@ -41,8 +41,6 @@ AVOID_DOC = {
                                "tick too many in boa.  Under the flag an async generator whose body contains `yield*` is never iterated "
                                "by for-await / another yield* (which may call return() on it) and its objects never get a .return() request; "
                                "next()/throw() requests on it stay in the stream.",
-    "labeled_break_out_of_iteration": "open finding C16-K2: `break L` from inside a for-of / for-await-of body to an enclosing labelled statement "
-                                      "does not close the iterator in boa.  Under the flag the labelled-loop form only uses `continue L`.",
 }
 
 PREAMBLE = [
@@ -578,7 +576,8 @@ class Gen:
         if k == "forawait":
             self.use("for_await")
             x = self.fresh("x")
-            it = self.iterable(c)
+            labeled = r.chance(0.2)
+            it = self.iterable(c.copy(once=False) if labeled else c)   # evaluated once per round of the labelled outer loop
             b = c.copy(after=True, once=False, in_loop=True, depth=c.depth + 1)
             b.locals = c.locals + [x]
             body = [pr(self.tag(b), x)]
@@ -592,11 +591,11 @@ class Gen:
             c.after = True
             decl = r.choice(["var", "let", "const"])
             loop = "for await (%s %s of %s) { %s }" % (decl, x, it, " ".join(body))
-            if r.chance(0.2):
+            if labeled:
                 self.use("labeled_for_await")
                 self.labeln += 1
                 L, j = "L%d" % self.labeln, self.fresh("j")
-                jump = "continue %s;" % L if "labeled_break_out_of_iteration" in self.avoid or r.chance(0.5) else "break %s;" % L
+                jump = r.choice(["continue %s;" % L, "break %s;" % L])   # `break L` was finding C16-K2 (fixed in 4f1f2df)
                 inner = "for await (%s %s of %s) { %s if (%s === %s) %s }" % (decl, x, it, " ".join(body), x, r.choice(["1", "2", "'a'", x]), jump)
                 loop = "%s: for (var %s = 0; %s < 2; %s++) { %s %s }" % (L, j, j, j, inner, pr(self.tag(b)))
             return loop, False
